@@ -23,8 +23,9 @@ NOTES = {
 }
 # what is tied to the property by translation of the current source text (tools/py2coq*.py) in addition to the correspondence run
 TIED = {
+ "C01": "expand_source_SCCs.py (expand_source_SCCs and attach_scc_subdiagram)",
  "C02": "SuccessionDiagram.__init__, _expand_one_node, _ensure_node, _ensure_edge, _update_node_depth, node_successors, expand_bfs.py, expand_dfs.py and the public wrappers",
- "C03": "expand_bfs.py, expand_dfs.py, expand_minimal_spaces.py, expand_attractor_seeds.py and the public wrappers",
+ "C03": "expand_bfs.py, expand_dfs.py, expand_minimal_spaces.py, expand_attractor_seeds.py, expand_source_SCCs.py and the public wrappers",
  "C04": "expand_bfs.py, expand_dfs.py, _expand_one_node, _ensure_node, node_successors",
  "C05": "skip_to_minimal, skip_remaining, expand_minimal_spaces.py",
  "C06": "space_utils.is_subspace / intersect, expand_to_target.py and its public wrapper, control.find_drivers / drivers_of_succession",
